@@ -11,6 +11,8 @@
   is_checkmate / is_stalemate
                      == (no move generated for the side to move) && / && not (side to move in check), over the contracts of
                         generate_moves (emitted count abstract; its meaning - the number of legal moves - is C01's) and is_in_check
+  generate_moves     the side-dispatch wrapper over the interface part of generate_legal_moves<side>'s C01 contract
+  is_move_legal      == "the move is in the list generate_moves emits" (loop contract over the scan; public API of movegen.h, no caller in engine/ on the pinned tree)
 """
 from runner import Job, tu
 from props.poscommon import *
@@ -131,7 +133,7 @@ _Bool spec_all_differ_but(const struct Position *p, int but)
     # with those answers, for every value of both: they must ask about the position itself, for the side TO MOVE, generate into a
     # buffer of full capacity that they own, and answer  (no legal move) && in check  resp.  (no legal move) && !in check.
     MATE, STALE = 'Position__is_checkmate', 'Position__is_stalemate'
-    c_gm = ('__CPROVER_requires($1 == G_SELF && $2 <= 1 && $2 == $1->_current_side && __CPROVER_same_object($3, MOVE_LIST) && __CPROVER_POINTER_OFFSET($3) % 1024 == 0 && __CPROVER_POINTER_OFFSET($3) + 1024 <= __CPROVER_OBJECT_SIZE(MOVE_LIST))\n'
+    c_gm = ('__CPROVER_requires($1 == G_SELF && $2 <= 1 && $2 == $1->_current_side && __CPROVER_same_object($3, MOVE_LIST) && __CPROVER_POINTER_OFFSET($3) % sizeof(MOVE_LIST[0]) == 0 && __CPROVER_POINTER_OFFSET($3) + sizeof(MOVE_LIST[0]) <= __CPROVER_OBJECT_SIZE(MOVE_LIST))\n'
             '__CPROVER_assigns(__CPROVER_object_whole(MOVE_LIST))\n'
             '__CPROVER_ensures(__CPROVER_same_object(__CPROVER_return_value, MOVE_LIST) && __CPROVER_POINTER_OFFSET(__CPROVER_return_value) == __CPROVER_POINTER_OFFSET(__CPROVER_old($3)) + 4 * (size_t)G_N)\n')
     c_chk = ('__CPROVER_requires(self == G_SELF && side == self->_current_side)\n__CPROVER_assigns()\n__CPROVER_ensures(__CPROVER_return_value == G_CHKV)\n')
@@ -146,11 +148,11 @@ _Bool spec_all_differ_but(const struct Position *p, int but)
                        force_globals=['MOVE_LIST'], timeout=1800,
                        note=nm + ' == (the side to move has no legal move) && ' + ('in check' if want == 'G_CHKV' else 'not in check') +
                        ': generate_moves replaced by its contract with the emitted count abstract (meaning: C01), is_in_check by its contract with the value abstract (meaning: C07/is_in_check); '
-                       'both must be asked about this position and the side to move, into a 256-move row of MOVE_LIST', **kwm))
+                       'both must be asked about this position and the side to move, into a whole row (MAX_MOVES entries) of MOVE_LIST', **kwm))
     # the generate_moves wrapper itself: dispatch on the side handed in; generate_legal_moves<side> by the interface part of its C01
     # contract (it must be called for the side to move, C01 compose precondition `_current_side == side`), emitted count abstract
     GLM = ['generate_legal_moves_0', 'generate_legal_moves_1']
-    c_glm = {GLM[sd]: ('__CPROVER_requires($1 == G_SELF && $1->_current_side == %d && __CPROVER_same_object($2, MOVE_LIST) && __CPROVER_POINTER_OFFSET($2) %% 1024 == 0 && __CPROVER_POINTER_OFFSET($2) + 1024 <= __CPROVER_OBJECT_SIZE(MOVE_LIST))\n' % sd +
+    c_glm = {GLM[sd]: ('__CPROVER_requires($1 == G_SELF && $1->_current_side == %d && __CPROVER_same_object($2, MOVE_LIST) && __CPROVER_POINTER_OFFSET($2) %% sizeof(MOVE_LIST[0]) == 0 && __CPROVER_POINTER_OFFSET($2) + sizeof(MOVE_LIST[0]) <= __CPROVER_OBJECT_SIZE(MOVE_LIST))\n' % sd +
                        '__CPROVER_assigns(__CPROVER_object_whole(MOVE_LIST))\n'
                        '__CPROVER_ensures(__CPROVER_same_object(__CPROVER_return_value, MOVE_LIST) && __CPROVER_POINTER_OFFSET(__CPROVER_return_value) == __CPROVER_POINTER_OFFSET(__CPROVER_old($2)) + 4 * (size_t)G_N)\n') for sd in (0, 1)}
     h = ND + ('void h_w(void) { struct Position P = nondet_Position(); W_P = P; G_SELF = &P; G_N = nondet_u32(); __CPROVER_assume(G_N <= 255); uint32_t row = nondet_u32(); __CPROVER_assume(row < 160);\n'
@@ -159,6 +161,32 @@ _Bool spec_all_differ_but(const struct Position *p, int but)
     out.append(Job('generate_moves_wrapper', tu('movegen.cpp', 'position.cpp', 'types.cpp', 'zobrist_hash.cpp', 'bithacks.cpp', 'move_bitboards.cpp'), ['generate_moves'], h, 'h_w',
                    contracts=dict(c_glm, generate_moves=c_gm), nobody=GLM, enforce='generate_moves', replace=GLM, stubs=GLM, force_globals=['MOVE_LIST'], timeout=1800,
                    note='generate_moves(position, side to move, list) hands the position and the list to generate_legal_moves<side to move> and returns its end pointer: the wrapper inherits the C01 contract (emitted count abstract)', **kwm))
+    # is_move_legal(position, m) (public API of movegen.h): == "m is among the moves generate_moves
+    # emits", i.e. m is legal by C01.  generate_moves by contract, list contents abstract except for the ghost facts
+    #   G_LEGAL  : the ghost move G_MV stands at index G_IDX < G_N of the emitted list       (witness)
+    #   !G_LEGAL : none of the G_N emitted moves equals G_MV                                  (a 512-term conjunction over the scratch list, written out: MAX_MOVES entries)
+    # the linear scan is closed by a loop contract (any list length below the MAX_MOVES capacity).
+    IML = 'is_move_legal'
+    c_gmt = ('__CPROVER_requires($1 == G_SELF && $2 <= 1 && $2 == $1->_current_side && __CPROVER_same_object($3, TEMP_MOVE_LIST) && __CPROVER_POINTER_OFFSET($3) == 0)\n'
+             '__CPROVER_assigns(__CPROVER_object_whole(TEMP_MOVE_LIST))\n'
+             '__CPROVER_ensures(__CPROVER_same_object(__CPROVER_return_value, TEMP_MOVE_LIST) && __CPROVER_POINTER_OFFSET(__CPROVER_return_value) == 4 * (size_t)G_N)\n'
+             '__CPROVER_ensures(G_LEGAL ==> (G_IDX < G_N && TEMP_MOVE_LIST[G_IDX] == G_MV))\n'
+             '__CPROVER_ensures(!G_LEGAL ==> (%s))\n' % ' && '.join('(%du >= G_N || TEMP_MOVE_LIST[%d] != G_MV)' % (i, i) for i in range(512)))
+    c_iml = ('__CPROVER_requires(wf_pos($1) && $1 == G_SELF && $2 == G_MV && G_N < sizeof(TEMP_MOVE_LIST) / 4)\n__CPROVER_assigns(__CPROVER_object_whole(TEMP_MOVE_LIST))\n'
+             '__CPROVER_ensures(__CPROVER_return_value == G_LEGAL)\n')
+    lc_iml = {(IML, 1): ['__CPROVER_assigns(it)',
+                         '__CPROVER_loop_invariant(__CPROVER_same_object(it, TEMP_MOVE_LIST) && __CPROVER_POINTER_OFFSET(it) % 4 == 0 && __CPROVER_POINTER_OFFSET(it) <= 4 * (size_t)G_N)',
+                         '__CPROVER_loop_invariant(G_LEGAL ==> __CPROVER_POINTER_OFFSET(it) <= 4 * (size_t)G_IDX)',
+                         '__CPROVER_decreases(4 * (size_t)G_N - __CPROVER_POINTER_OFFSET(it))']}
+    CAP = '  __CPROVER_assert(sizeof(TEMP_MOVE_LIST) == 4 * 512, "capacity of the scratch list is the 512 entries the absence clause enumerates");\n'
+
+    h = ND + ('void h_l(void) { struct Position P = nondet_Position(); W_P = P; G_SELF = &P; G_N = nondet_u32(); G_MV = nondet_u32(); G_IDX = nondet_u32(); G_LEGAL = nondet_bool();\n'
+              + CAP + '  is_move_legal(&P, G_MV);' + CANARY + '}\n')
+    kwl = dict(common); kwl['pre_text'] = HDECL + 'const struct Position *G_SELF; uint32_t G_N, G_MV, G_IDX; _Bool G_LEGAL;\n'
+    out.append(Job('is_move_legal', tu('movegen.cpp', 'position.cpp', 'types.cpp', 'zobrist_hash.cpp', 'bithacks.cpp', 'move_bitboards.cpp'), [IML], h, 'h_l',
+                   contracts={IML: c_iml, 'generate_moves': c_gmt}, nobody=['generate_moves'], enforce=IML, replace=['generate_moves'], stubs=['generate_moves'], loopc=lc_iml, loop_contracts=True,
+                   expect=['loop_invariant_step'], force_globals=['TEMP_MOVE_LIST'], timeout=1800, route='loop contract (unbounded): the scan of the generated list',
+                   note='is_move_legal(position, m) == m is one of the moves generate_moves emits for the side to move (legal by C01): generate_moves by contract with ghost witness / ghost absence of m in the emitted list', **kwl))
     # each scan is checked in two groups, split on which ghost witness is in force (same contract, same loop contract, smaller case space):
     #   /witnessed : some earlier occurrence(s) are witnessed (G_ONE or G_TWO)  -> the "answers true" direction
     #   /absent    : no witness flag set; G_NONE / G_AM1 (all earlier entries, but at most one, differ) -> the "answers false" direction
